@@ -154,6 +154,8 @@ func runC11(r *Run) {
 	// ---------------------------------------------------------------- R4
 	r.Rule("C11.R4")
 	c11Siblings(r, pairs)
+
+	r.NilArgsRule("C11.R5", "x509", "asn1", "x509/pkix")
 }
 
 // ---- IsFatal decision table ---------------------------------------------------------
